@@ -181,8 +181,13 @@ theorem selectCertificate_notEd {ss : Settings} {sc : ServerCfg} {o : Offer} {l 
         simp only [Option.any_some, hcond.1, hcond.2, Bool.and_self, if_true]
     unfold selectCertificate at h
     rw [hu] at h
-    have hp : prfFiltered ss o v [] = [] := by
-      unfold prfFiltered filterForPrfs; split <;> rfl
+    have hp : prfFiltered ss o v sc.cred [] = [] := by
+      have hf : ∀ prfs, filterForPrfs [] prfs = [] := fun prfs => by unfold filterForPrfs; rfl
+      unfold prfFiltered
+      rw [hf]
+      split
+      · rfl
+      · split <;> rfl
     rw [hp] at h
     simp only [List.find?_nil] at h
     split at h <;> cases h
